@@ -101,6 +101,17 @@ def c12_scripts(seed, n):
                 ls = gen.gen_screen_case(r, 0)[1:-1]
                 # screens/canvases of this history get the same id as its terminal
             hists.append(ls)
+        if r.chance(1, 3):
+            # the same operations on terminals that differ only in their declared
+            # behaviour: what one does must not leak into the other
+            base = next((h for h in hists if h and h[0].startswith("T 0 new")), None)
+            if base is not None:
+                hists = []
+                for j in range(k):
+                    m = (r.below(128) | (r.below(32) << 7)) if j else int(base[0].split()[3])
+                    if j == 1:
+                        m = int(base[0].split()[3]) ^ (1 << r.pick([0, 1, 7, 8, 9, 10, 11, 11, 11]))
+                    hists.append(["T 0 new %d" % m] + base[1:])
         cid += 1
         group_id = cid
         # solo runs: one CASE per history, ids relabelled to j
@@ -279,6 +290,44 @@ def run_c14(pid, tier, seed, ctx, P):
             k = next((j for j in range(min(len(out), len(want))) if out[j] != want[j]), min(len(out), len(want)))
             fails.append(("stdout_channel: %d writes totalling %d bytes produced %d bytes on standard output (exit %d); first difference at offset %d" % (
                 len(chunks), len(want), len(out), rc, k), ["X stdout " + " ".join(script[:4000])]))
+            break
+    # a slow reader and a host program that handles signals: large writes block on the
+    # pipe and are interrupted; every byte must still arrive, in order
+    import signal
+    for rep in range(2 if tier == "quick" else 6):
+        big = [bytes((r.below(251) + j) % 256 for j in range(sz)) for sz in (300000, 1, 700000, 65536, 200000)]
+        script = ["!sigwinch"] + [c.hex() for c in big]
+        want = b"".join(big)
+        env = dict(os.environ)
+        env["ASAN_OPTIONS"] = "detect_leaks=0:exitcode=99"
+        p = subprocess.Popen([exe, "stdout"], stdin=subprocess.PIPE, stdout=subprocess.PIPE, stderr=subprocess.PIPE, env=env)
+        try:
+            p.stdin.write("".join(l + "\n" for l in script).encode())
+            p.stdin.close()
+            time.sleep(0.4)                 # the child fills the pipe and blocks in write()
+            got = b""
+            for _k in range(40):
+                try:
+                    p.send_signal(signal.SIGWINCH)
+                except ProcessLookupError:
+                    break
+                time.sleep(0.005)
+                got += os.read(p.stdout.fileno(), 30000)     # drain a little: short writes
+            while True:
+                chunk = p.stdout.read(1 << 20)
+                if not chunk:
+                    break
+                got += chunk
+            rc = p.wait(timeout=60)
+        finally:
+            if p.poll() is None:
+                p.kill()
+        stats["write_scripts"] += 1
+        stats["bytes"] += len(want)
+        if rc != 0 or got != want:
+            k = next((j for j in range(min(len(got), len(want))) if got[j] != want[j]), min(len(got), len(want)))
+            fails.append(("stdout_channel with a slow reader and a host that handles SIGWINCH: %d bytes written, %d arrived (exit %d), first difference at offset %d" % (
+                len(want), len(got), rc, k), ["X stdout-slow " + " ".join(str(len(c)) for c in big)]))
             break
     # the same terminal operations through stdout_channel and through a capturing channel
     nops = 60 if tier == "quick" else 600
